@@ -55,7 +55,7 @@ def new_state(prog, cname, declared_rand=True):
         elif k == "list":
             ek = fd["ek"]
             if ek == "int":
-                st["f"][n] = [wrap(x, fd["w"], fd["s"]) for x in fd.get("init", [0] * fd.get("sz", 0))]
+                st["f"][n] = [wrap(x, fd["w"], fd["s"]) for x in fd.get("init", [0] * (0 if fd.get("rsz") else fd.get("sz", 0)))]
             elif ek == "enum":
                 first = prog["enums"][fd["e"]][0][0]
                 st["f"][n] = list(fd.get("init", [first] * fd.get("sz", 0)))
@@ -138,8 +138,12 @@ def decl_at(prog, st, path):
     fd = None
     for p in path:
         if isinstance(p, str):
+            if p == "#sz":
+                continue
             fd = field_decl(prog, o["cls"], p)
             o = o["f"][p]
+        elif fd is not None and fd["k"] == "list" and fd["ek"] != "obj":
+            pass    # element of a scalar list: the list's declaration describes it (the element may not exist yet)
         else:
             o = o[p]
     return fd
@@ -183,12 +187,20 @@ def walk_leaves(prog, st, used_rand, prefix, level, out, objs):
             if fd["ek"] == "obj":
                 for i, sub in enumerate(st["f"][n]):
                     walk_leaves(prog, sub, lr, p + [i], level + 2, out, objs)
+            elif fd.get("rsz") and lr:
+                # random-size list: the size is a leaf of the call, and so is every element up to the
+                # largest size the generator's size constraints admit (fd["szmax"])
+                out.append((tuple(p + ["#sz"]), ("size", fd["szmax"]), True))
+                for i in range(fd["szmax"]):
+                    out.append((tuple(p + [i]), leaf_type(prog, fd), True))
             else:
                 for i in range(len(st["f"][n])):
                     out.append((tuple(p + [i]), leaf_type(prog, fd), lr))
 
 
 def leaf_domain(prog, t):
+    if t[0] == "size":
+        return range(0, t[1] + 1)
     if t[0] == "int":
         w, s = t[1], t[2]
         if s:
@@ -200,7 +212,7 @@ def leaf_domain(prog, t):
 def leaf_bits(prog, t):
     if t[0] == "int":
         return t[1]
-    n = len(prog["enums"][t[1]])
+    n = (t[1] + 1) if t[0] == "size" else len(prog["enums"][t[1]])
     b = 0
     while (1 << b) < n:
         b += 1
@@ -279,6 +291,9 @@ def etype(e, ctx):
         ap = _it_path(e, ctx)
         _, w, s = _leaf_tv(ctx, ap)
         return w, s, False
+    if k == "el":
+        _, w, s = _leaf_tv(ctx, _el_path(e, ctx))
+        return w, s, False
     if k == "idx":
         return 32, False, False
     if k == "en":
@@ -320,8 +335,21 @@ def etype(e, ctx):
         return 1, False, False
     if k == "sz":
         return 32, False, False
-    if k in ("sum", "prod"):
-        raise Corner("sum/product typed by the list (handled by caller)")
+    if k == "sum":
+        # wide enough never to overflow: element width + clog2(number of elements)
+        fd = ctx.decl(ctx.abs(e[1]))
+        n = len(_read_list(ctx, ctx.abs(e[1])))
+        bits = fd["w"]
+        ov = n - 1
+        while ov > 0:
+            bits += 1
+            ov >>= 1
+        return bits, fd["s"], False
+    if k == "prod":
+        fd = ctx.decl(ctx.abs(e[1]))
+        if len(_read_list(ctx, ctx.abs(e[1]))) == 0:
+            raise Corner("product of an empty list")
+        return 64, fd["s"], False
     raise RefError("unknown expression %r" % (e,))
 
 
@@ -331,6 +359,20 @@ def _it_path(e, ctx):
     if e[0] == "ita":
         return lp + (i, e[1])
     return lp + (i,)
+
+
+def _el_path(e, ctx):
+    """["el", listpath, index expr, optional attr]: element of a list selected by a computed index"""
+    lp = ctx.abs(e[1])
+    iw, isg, _ = etype(e[2], ctx)
+    i = ev_self(e[2], ctx)
+    n = len(_read_list(ctx, lp))
+    if not (0 <= i < n):
+        raise Corner("list index outside the list")
+    ap = lp + (i,)
+    if len(e) > 3 and e[3]:
+        ap = ap + (e[3],)
+    return ap
 
 
 def _signed_tree(e, ctx):
@@ -420,6 +462,8 @@ def ev_self(e, ctx):
         return _leaf_tv(ctx, ctx.abs(e[1]))[0]
     if k in ("it", "ita"):
         return _leaf_tv(ctx, _it_path(e, ctx))[0]
+    if k == "el":
+        return _leaf_tv(ctx, _el_path(e, ctx))[0]
     if k == "idx":
         d = e[1] if len(e) > 1 else -1
         return ctx.fe[d][1]
@@ -437,6 +481,16 @@ def ev_self(e, ctx):
         return ((v & ((1 << w) - 1)) >> e[2]) & 1
     if k == "sz":
         return len(_read_list(ctx, ctx.abs(e[1])))
+    if k == "sum":
+        w, sg, _ = etype(e, ctx)
+        tot = sum(v for v, _, _ in _list_elem_tvs(ctx, ctx.abs(e[1])))
+        return wrap(tot, w, sg)
+    if k == "prod":
+        w, sg, _ = etype(e, ctx)
+        tot = 1
+        for v, _, _ in _list_elem_tvs(ctx, ctx.abs(e[1])):
+            tot *= v
+        return wrap(tot, w, sg)
     w, s, isb = etype(e, ctx)
     v = ev(e, ctx, w, s)
     return wrap(v, w, s) if s else v
@@ -754,10 +808,18 @@ class Call(object):
         return out
 
     def domain_size(self):
+        """number of points the enumeration visits (random-size lists: elements beyond the size are pinned)"""
         n = 1
         for _, t in self.rand_leaves:
             n *= len(leaf_domain(self.prog, t))
         return n
+
+    def canonical_domain_size(self):
+        if not self.has_random_size():
+            return self.domain_size()
+        doms = [list(leaf_domain(self.prog, t)) for _, t in self.rand_leaves]
+        szidx = self.size_index()
+        return sum(1 for tup in itertools.product(*doms) if self.canonical(tup, szidx, doms))
 
     def enumerate(self, limit=1 << 16):
         """All assignments (tuples in rand_leaves order) satisfying the hard statements."""
@@ -766,11 +828,45 @@ class Call(object):
         paths = [p for p, _ in self.rand_leaves]
         doms = [list(leaf_domain(self.prog, t)) for _, t in self.rand_leaves]
         sols = []
+        szidx = self.size_index()
         for tup in itertools.product(*doms):
+            if szidx and not self.canonical(tup, szidx, doms):
+                continue
             env = dict(zip(paths, tup))
             if self.holds(env):
                 sols.append(tup)
         return sols
+
+    def size_index(self):
+        """for every random-size list of the call: (index of its size leaf, [(element number, index of element leaf)])"""
+        paths = [p for p, _ in self.rand_leaves]
+        out = []
+        for i, (p, t) in enumerate(self.rand_leaves):
+            if t[0] == "size":
+                base = p[:-1]
+                els = [(q[-1], j) for j, q in enumerate(paths) if q[:-1] == base and isinstance(q[-1], int)]
+                out.append((i, els))
+        return out
+
+    def canonical(self, tup, szidx, doms):
+        """elements at or beyond the chosen size do not exist: they are pinned to a placeholder value"""
+        for si, els in szidx:
+            for num, j in els:
+                if num >= tup[si] and tup[j] != doms[j][0]:
+                    return False
+        return True
+
+    def canon_value(self, tup):
+        doms = [list(leaf_domain(self.prog, t)) for _, t in self.rand_leaves]
+        tup = list(tup)
+        for si, els in self.size_index():
+            for num, j in els:
+                if num >= tup[si]:
+                    tup[j] = doms[j][0]
+        return tuple(tup)
+
+    def has_random_size(self):
+        return any(t[0] == "size" for _, t in self.rand_leaves)
 
     def soft_items(self):
         """Soft statements in priority order, lowest first (later statement wins)."""
